@@ -298,6 +298,7 @@ def c20(res, tier, rng, wd):
     cbase = e2.gen_c10(rng, 60 if thorough else 20) + e2.gen_c12(rng)[:: (4 if thorough else 12)] + e2.gen_c11(rng)[:4] \
         + e2.gen_c04(rng)[:: (10 if thorough else 30)]
     run_e2(res, "C20", e2.with_decode_variants(rng, cbase, positions=None if thorough else 3, all_levels=thorough), wd, "c20client")
+    run_e4(res, "C20", e4.gen_c20_server(rng, thorough), wd, "c20server")
     res.assumptions = E1_ASSUME + ["a tracing subscriber at INFO is installed so the Display/Loggable re-parsing code runs",
                                    "server role in this engine; client role is exercised by the E2 part of this check"]
     return res.finish(rule="every base script (lattice, random sequences, chunked streams) at the lowest and highest decode level "
@@ -556,3 +557,85 @@ def _replay_retry(res, pid, obj, wd):
 
 REPLAYERS["tlc-design"] = _replay_design
 REPLAYERS["retry-object"] = _replay_retry
+
+
+# --------------------------------------------------------------------------- E4 based checks
+import e4  # noqa: E402
+
+E4_ASSUME = ["TLC and ServerTaskTrace.tla / AddressFilter.tla / TlsAdmission.tla",
+             "real loopback sockets and wall-clock waits (generous upper bounds; only ordering and presence/absence are judged)",
+             "hook events (filter decision, tracker add/remove) are emitted by the server task at the point where they take effect"]
+
+
+def report_e4(res, pid, rejs):
+    for sc, r in rejs:
+        text = e4.describe_rejection(sc, r)
+        fid = match_known(pid, "e4", sc, r)
+        if fid:
+            res.known(fid[0], fid[1])
+        else:
+            res.violation(text, e4.replay_obj(pid, sc, r))
+
+
+def run_e4(res, pid, scs, wd, name):
+    for i in list(range(0, len(scs), max(1, len(scs) // 2)))[:2]:
+        s = scs[i]
+        res.samples.append({"tag": s["tag"], "variant": s["variant"], "api": s["api"], "max_sessions": s["max_sessions"],
+                            "filter": s["filter"], "first_steps": [json.dumps(x)[:120] for x in s["steps"][:4]]})
+    rejs = e4.check_scripts(res, scs, wd, name)
+    report_e4(res, pid, rejs)
+
+
+def _replay_e4(res, pid, obj, wd):
+    report_e4(res, pid, e4.check_scripts(res, [obj["scenario"]], wd, "replay"))
+
+
+REPLAYERS["e4"] = _replay_e4
+
+
+@check("C15")
+def c15(res, tier, rng, wd):
+    thorough = tier == "thorough"
+    scs = e4.gen_c15(rng, 300 if thorough else 50, thorough)
+    run_e4(res, "C15", scs, wd, "c15")
+    tls = e4.gen_c15_tls(rng)
+    for i, s in enumerate(tls):
+        s["id"] = 10000 + i
+    run_e4(res, "C15", tls, wd, "c15tls")
+    res.assumptions = E4_ASSUME
+    return res.finish(rule="random histories over {connect from aliased loopback sources, request (reads / writes on the shared handlers), "
+                           "peer close, malformed header, half frame, set-decode, shutdown, handle drop} with max_sessions in {0,1,2,3}, "
+                           "plus max+3 connections in a row, plus TLS / TLS+authz servers with sessions stalled in the handshake; the tracker "
+                           "hook events give size <= max and the evicted id at every step, the peers' view gives reply / EOF / refused")
+
+
+@check("C16")
+def c16(res, tier, rng, wd):
+    thorough = tier == "thorough"
+    scs = e4.gen_c16(rng, thorough)
+    run_e4(res, "C16", scs, wd, "c16")
+    rejs = e4.check_scripts(res, e4.gen_wildcards(rng, 30000 if thorough else 3000), wd, "c16wild")
+    report_e4(res, "C16", rejs)
+    res.assumptions = E4_ASSUME + ["source addresses are loopback aliases (127.x.y.z, ::1) bound before connect"]
+    return res.finish(rule="filters {any, exact v4/v6, sets, wildcard lattice over literal / '*' fields} x source addresses "
+                           "{127.0.0.1, 127.0.0.2, 127.1.2.3, 127.255.255.254, 127.0.1.2, 127.9.0.2, ::1} x server variants {TCP, TLS, TLS+authz} x "
+                           "{Rust constructors, C ABI constructors}; a matching peer is tracked and answered, a non-matching peer sees EOF "
+                           "without a single byte; the decision must equal AddressFilter!Matches evaluated by TLC")
+
+
+@check("C09")
+def c09(res, tier, rng, wd):
+    thorough = tier == "thorough"
+    c = {"X": 0}
+    vf.design_run(res, "C09", "TlsAdmission_MC", "TlsAdmission_MC.tla", "Spec", {}, 
+                  ["NeverBelowMin", "OnlyAuthenticated", "AlwaysWhenValidAndAtOrAboveMin", "RoleIsTheSingleExtension"], workers=2)
+    scs = e4.gen_c09_server(rng, thorough)
+    run_e4(res, "C09", scs, wd, "c09server")
+    res.assumptions = E4_ASSUME + ["rustls / webpki / ring internals are trusted: checked is rodbus's configuration of them and the admission outcome",
+                                   "fixture certificates are pre-generated (fixtures/gen_certs.sh) with the facts tabulated in TlsAdmission!CertInfo",
+                                   "the harness peer is built directly on tokio-rustls with pinned protocol versions"]
+    return res.finish(rule="configuration grid {authority ca1 / ca2, self-signed expected / expired} x {min 1.2, 1.3} x {TLS, TLS+authz} x "
+                           "{Rust, C ABI (sampled in quick)} against peers {12 client certificates incl. wrong authority, expired, not yet valid, "
+                           "no role, two roles, other self-signed, none} x offered versions {1.2}, {1.3}, {1.2,1.3}: real handshakes on loopback; "
+                           "outcome and negotiated version must equal TlsAdmission!Admit; a Modbus request on a rejected connection is never "
+                           "processed; the role seen by the authorization handler must be the certificate's")
